@@ -754,6 +754,10 @@ func (prop) Execute(scAny any, phase string, log *core.Log) core.Result {
 			res.Fail("argument-mutated", "argument-mutated:"+c.Fn, "%s modified its argument (pool item %d, kind %s): %s; call %+v", c.Fn, i, s.Pool[i].K, d, *c)
 			return res
 		}
+		if strings.Contains(r1, "ERROR-TEXT-DIFFERS-BETWEEN-READERS") {
+			res.Fail("not-deterministic", "error-text-differs-between-readers:"+c.Fn, "the error %s returned renders differently for two goroutines that read it at the same time: %s", c.Fn, short(r1))
+			return res
+		}
 		if strings.Contains(r1, "CALLER-SLICE-CLOBBERED") {
 			res.Fail("argument-mutated", "argument-mutated:"+c.Fn, "%s wrote into the slice the caller passed as its variadic argument (beyond or inside its length); call %+v", c.Fn, *c)
 			return res
